@@ -1,5 +1,83 @@
-import TcheranVerif.Model.Search
+import TcheranVerif.Model.Time
+/-!
+# C14 — time allocation (theorems over the exact model, constants regenerated from `/repo`)
+
+Durations are nanoseconds in `Nat`. The Rust computes the products in `f32`; the model is exact
+and the correspondence compares within the `f32` ε (DESIGN §5 C14), so these inequalities hold
+for the code up to a relative 2⁻²³ per multiplication. The wall-clock sentence of C14 (the move is
+returned before the flag falls) is runtime behaviour, not proved: partial.
+-/
 namespace Tcheran.Props.C14
-theorem placeholder : True := trivial
+open Tcheran Tcheran.Time
+
+theorem max_time_frac : Gen.p_max_time_per_move = (5, 10) := by decide
+theorem soft_frac : Gen.p_soft_time_multiplier = (75, 100) := by decide
+theorem hard_frac : Gen.p_hard_time_multiplier = (300, 100) := by decide
+
+/-- the per-move cap is at most half of the time it is computed from (needs only `MAX ≤ 1/2`) -/
+theorem cap_le_half (r : Nat) : mulFrac r Gen.p_max_time_per_move ≤ r / 2 := by
+  rw [max_time_frac]; unfold mulFrac; simp only; omega
+
+/-- **soft_le_hard**: for every clock tuple -/
+theorem soft_le_hard (white : Bool) (tc : Control) (oh s h : Nat)
+    (hl : limits white tc oh = some (s, h)) : s ≤ h := by
+  unfold limits at hl
+  cases tc with
+  | infinite => simp at hl; omega
+  | exact t => simp at hl; omega
+  | clocks c =>
+    simp only at hl
+    split at hl
+    · cases hl
+    · rename_i base hb
+      simp only [Option.some.injEq, Prod.mk.injEq] at hl
+      rw [← hl.1, ← hl.2, soft_frac, hard_frac]
+      unfold mulFrac
+      simp only
+      omega
+
+/-- **hard_le_half**: with an overhead of at most half the remaining time the hard limit is at most
+    half of the remaining time after overhead (whatever increment and moves-to-go) -/
+theorem hard_le_half (white : Bool) (c : Clocks) (ohMs r s h : Nat)
+    (hr : (if white then c.wtime else c.btime) = some r)
+    (hoh : 2 * (ohMs * 1000000) ≤ r)
+    (hl : limits white (.clocks c) ohMs = some (s, h)) : h ≤ (r - ohMs * 1000000) / 2 := by
+  unfold limits at hl
+  simp only [hr, Option.getD_some] at hl
+  have hmax : max (r - ohMs * 1000000) (ohMs * 1000000) = r - ohMs * 1000000 := by omega
+  rw [hmax] at hl
+  split at hl
+  · cases hl
+  · simp only [Option.some.injEq, Prod.mk.injEq] at hl
+    rw [← hl.2]
+    have := cap_le_half (r - ohMs * 1000000)
+    omega
+
+/-- **movetime_exact**: a fixed move time is used as given, for both limits -/
+theorem movetime_exact (white : Bool) (t oh : Nat) : limits white (.exact t) oh = some (t, t) := rfl
+
+/-- the computation panics (division by zero) only for `movestogo 0`, which the property excludes -/
+theorem limits_total (white : Bool) (c : Clocks) (oh : Nat) (h : c.movestogo ≠ some 0) :
+    ∃ s hd, limits white (.clocks c) oh = some (s, hd) := by
+  unfold limits
+  simp only
+  cases hm : c.movestogo with
+  | none => exact ⟨_, _, rfl⟩
+  | some m =>
+    cases m with
+    | zero => exact absurd hm h
+    | succ k => exact ⟨_, _, rfl⟩
+
+/-- non-vacuity: 60 s + 1 s increment, no moves-to-go, 10 ms overhead -/
+example : limits true (.clocks ⟨some 60000000000, some 60000000000, some 1000000000, some 1000000000, none⟩) 10
+    = some (1859752500, 7439010000) := by decide
+
 end Tcheran.Props.C14
-#print axioms Tcheran.Props.C14.placeholder
+#print axioms Tcheran.Props.C14.cap_le_half
+#print axioms Tcheran.Props.C14.soft_le_hard
+#print axioms Tcheran.Props.C14.hard_le_half
+#print axioms Tcheran.Props.C14.movetime_exact
+#print axioms Tcheran.Props.C14.limits_total
+#print axioms Tcheran.Props.C14.max_time_frac
+#print axioms Tcheran.Props.C14.soft_frac
+#print axioms Tcheran.Props.C14.hard_frac
